@@ -63,11 +63,15 @@ func handleOf(id sop.UUID, i int) sop.Handle {
 }
 
 func newRegistry(folder string, l2 sop.L2Cache) (fs.Registry, error) {
+	return newRegistryMode(folder, l2, true)
+}
+
+func newRegistryMode(folder string, l2 sop.L2Cache, readWrite bool) (fs.Registry, error) {
 	rt, err := fs.NewReplicationTracker(context.Background(), []string{folder}, false, l2)
 	if err != nil {
 		return nil, err
 	}
-	return fs.NewRegistry(true, hashMod, rt, l2), nil
+	return fs.NewRegistry(readWrite, hashMod, rt, l2), nil
 }
 
 func payloadH(hs ...sop.Handle) []sop.RegistryPayload[sop.Handle] {
@@ -79,7 +83,11 @@ func payloadID(ids ...sop.UUID) []sop.RegistryPayload[sop.UUID] {
 
 // newWorld creates the folder, fills the block under test with a few other handles through the real
 // registry and computes the block images.
-func newWorld(folder string, lay [2]int) (*world, error) {
+func newWorld(folder string, lay [2]int) (*world, error) { return newWorldKind(folder, lay, false) }
+
+// newWorldKind: with empty = true the block under test is a never-written (all-zero, "sparse") block: the filler
+// handle goes to another block of the segment, image 0 is the all-zero block.
+func newWorldKind(folder string, lay [2]int, empty bool) (*world, error) {
 	folder, _ = filepath.Abs(folder)
 	slot, ok := layoutSlot[lay]
 	if !ok {
@@ -103,6 +111,10 @@ func newWorld(folder string, lay [2]int) (*world, error) {
 	for _, s := range []int{3, 17, 30, 48, 65} {
 		if s == slot {
 			continue
+		}
+		if empty {
+			fill = append(fill, handleOf(mkUUID(2, uint64(s)+66*7), 1)) // block 2: only creates the segment file
+			break
 		}
 		fid := mkUUID(1, uint64(s)+66*7)
 		h := handleOf(fid, 1)
@@ -142,6 +154,9 @@ func newWorld(folder string, lay [2]int) (*world, error) {
 			copy(img[so:], hb)
 		}
 		binary.LittleEndian.PutUint32(img[dataLen:], crc32.ChecksumIEEE(img[:dataLen]))
+		if bytes.Equal(img[:dataLen], make([]byte, dataLen)) {
+			binary.LittleEndian.PutUint32(img[dataLen:], 0) // a never-written block is all zeros, trailer included
+		}
 		w.images[i] = img
 	}
 	return w, nil
@@ -285,9 +300,14 @@ func (w *world) valOf(hs []sop.RegistryPayload[sop.Handle]) int {
 // ---- operations of actors (real registry calls) ----
 
 // lookup: a fresh process (own registry object, own cold L2 cache) fetches the id.
-func (w *world) lookup(ctx context.Context) (string, int, string) {
+func (w *world) lookup(ctx context.Context) (string, int, string) { return w.lookupMode(ctx, true) }
+
+// lookupRO: the same through a registry opened read-only (what a ForReading transaction uses).
+func (w *world) lookupRO(ctx context.Context) (string, int, string) { return w.lookupMode(ctx, false) }
+
+func (w *world) lookupMode(ctx context.Context, readWrite bool) (string, int, string) {
 	w.l2.Clear(ctx) // a lookup that finds the handle in the cache never reaches the file: keep the cache cold
-	reg, err := newRegistry(w.folder, gateL2{w.l2})
+	reg, err := newRegistryMode(w.folder, gateL2{w.l2}, readWrite)
 	if err != nil {
 		return "err", 0, err.Error()
 	}
